@@ -193,7 +193,7 @@ pub fn sweep(eras: &[Era], base_filter: &dyn Fn(&str) -> bool, bounds: Bounds, v
     }
     // B3ref (reference-script spend) is explored by every sweep, but is not one of
     // `bases::bases()`: the C38 rule model does not know reference scripts
-    for base in bases::bases().into_iter().chain([bases::b3ref(Era::Babbage), bases::b3ref(Era::Conway)]) {
+    for base in bases::bases().into_iter().chain(bases::reference_script_bases()) {
         if !eras.contains(&base.era) || !base_filter(&base.base) {
             continue;
         }
